@@ -560,25 +560,27 @@ func (r *rewriter) stmtAccesses(s ast.Stmt, out *[]acc) {
 		if x.Init != nil {
 			r.stmtAccesses(x.Init, out)
 		}
-		r.reads(x.Cond, out)
+		r.readsScoped(x.Cond, x.Init, out)
 	case *ast.SwitchStmt:
 		if x.Init != nil {
 			r.stmtAccesses(x.Init, out)
 		}
 		if x.Tag != nil {
-			r.reads(x.Tag, out)
+			r.readsScoped(x.Tag, x.Init, out)
 		}
 	case *ast.TypeSwitchStmt:
 		if x.Init != nil {
 			r.stmtAccesses(x.Init, out)
 		}
-		r.stmtAccesses(x.Assign, out)
+		var tmp []acc
+		r.stmtAccesses(x.Assign, &tmp)
+		*out = append(*out, filterDefined(tmp, x.Init)...)
 	case *ast.ForStmt:
 		if x.Init != nil {
 			r.stmtAccesses(x.Init, out)
 		}
 		if x.Cond != nil {
-			r.reads(x.Cond, out)
+			r.readsScoped(x.Cond, x.Init, out)
 		}
 	case *ast.RangeStmt:
 		r.reads(x.X, out)
@@ -861,4 +863,39 @@ func (r *rewriter) lhs(e ast.Expr, out *[]acc, alsoRead bool) {
 	case *ast.StarExpr:
 		r.reads(x.X, out)
 	}
+}
+
+// readsScoped collects the reads of e that can be hoisted in front of the statement: accesses
+// that mention a variable defined by the statement's own init clause cannot.
+func (r *rewriter) readsScoped(e ast.Expr, init ast.Stmt, out *[]acc) {
+	var tmp []acc
+	r.reads(e, &tmp)
+	*out = append(*out, filterDefined(tmp, init)...)
+}
+
+func filterDefined(accs []acc, init ast.Stmt) []acc {
+	as, ok := init.(*ast.AssignStmt)
+	if !ok || as.Tok != token.DEFINE {
+		return accs
+	}
+	def := map[string]bool{}
+	for _, l := range as.Lhs {
+		if id, ok := l.(*ast.Ident); ok {
+			def[id.Name] = true
+		}
+	}
+	var out []acc
+	for _, a := range accs {
+		uses := false
+		ast.Inspect(a.expr, func(n ast.Node) bool {
+			if id, ok := n.(*ast.Ident); ok && def[id.Name] {
+				uses = true
+			}
+			return true
+		})
+		if !uses {
+			out = append(out, a)
+		}
+	}
+	return out
 }
